@@ -6,6 +6,7 @@ import (
 	"fmt"
 
 	"github.com/go-gts/gts"
+	"github.com/go-pars/pars"
 )
 
 //verif:harness prop=C03 quick=2 thorough=4 merge=concrete timeout=1200
@@ -85,6 +86,111 @@ func VH_C03_reference_slice() {
 		vAssert("reference-renumbered", got[i].Number == i+1)
 		vAssert("reference-identity", got[i].Authors == want[i].Authors)
 		vAssert("reference-range-clipped-and-rebased", got[i].Info == want[i].Info)
+	}
+	vObserve("nrefs", len(got))
+}
+
+// vRefRanges reads the base ranges of a reference info back (nil when it is free text).
+func vRefRanges(word, info string) []gts.Ranged {
+	res, err := parseReferenceInfo(word).Parse(pars.FromString(info))
+	if err != nil {
+		return nil
+	}
+	return res.Value.([]gts.Ranged)
+}
+
+//verif:harness prop=C03 quick=1 thorough=2 merge=concrete timeout=1200
+//verif:bounds wrap-around windows: gts.Slice(gb, s, e) with e < s on a circular GenBank record of L = 5 (quick) / 7 (thorough) residues, references "(bases A to B; C to D)", free text, "(bases E to F)", A..F symbolic in 1..L, every s in 1..L-1 and e in 0..s-1: a reference is kept iff one of its bases lies in the window [s,L) + [0,e), its ranges cover exactly the images of those bases in the slice, references are renumbered consecutively
+func VH_C03_reference_wrap() {
+	L := 5 + 2*vTier()
+	word := "bases"
+	mol := gts.DNA
+	if vShard(1+vTier()) == 1 {
+		mol, word = gts.AA, "residues"
+	}
+	num := func(name string) int { return vIntIn(name, 1, L) }
+	A, B, C, D, E, F := num("A"), num("B"), num("C"), num("D"), num("E"), num("F")
+	vAssume(vAnd(A <= B, vAnd(C <= D, E <= F)))
+	info1 := fmt.Sprintf("(%s %d to %d; %d to %d)", word, A, B, C, D)
+	info2 := fmt.Sprintf("(%s %d to %d)", word, E, F)
+	refs := []Reference{{Number: 1, Info: info1, Authors: "a"}, {Number: 2, Info: "sites", Authors: "b"}, {Number: 3, Info: info2, Authors: "c"}}
+	gb := GenBank{Fields: GenBankFields{LocusName: "X", Molecule: mol, Topology: gts.Circular, Date: Date{2000, 1, 1}, References: refs},
+		Origin: NewOrigin([]byte("acgtacgta")[:L])}
+	s := 1 + vChoice("s", L-1)
+	e := vChoice("e", s)
+	wlen := L - s + e
+	var sliced gts.Sequence
+	if vPanics(func() { sliced = gts.Slice(gb, s, e) }) {
+		vAssert("slice-no-panic", false)
+		return
+	}
+	out, ok := sliced.(GenBank)
+	vAssert("still-genbank", ok)
+	if !ok {
+		return
+	}
+	vCover("sliced")
+	vAssert("window-length", len(out.Bytes()) == wlen)
+	vAssert("slice-is-linear", out.Fields.Topology == gts.Linear)
+	vAssert("argument-unchanged", vAnd(len(gb.Fields.References) == 3, vAnd(gb.Fields.References[0].Info == info1, gb.Fields.References[2].Info == info2)))
+	// base b (0-based) of the record lies in the window iff b >= s or b < e
+	inWin := func(b int) bool { return vOr(b >= s, b < e) }
+	covers := func(rs [][2]int, b int) bool {
+		c := false
+		for _, r := range rs {
+			c = vOr(c, vAnd(r[0]-1 <= b, b < r[1]))
+		}
+		return c
+	}
+	r1 := [][2]int{{A, B}, {C, D}}
+	r3 := [][2]int{{E, F}}
+	kept := func(rs [][2]int) bool {
+		k := false
+		for b := 0; b < L; b++ {
+			k = vOr(k, vAnd(inWin(b), covers(rs, b)))
+		}
+		return k
+	}
+	k1, k3 := kept(r1), kept(r3)
+	got := out.Fields.References
+	wantN := 1
+	if k1 {
+		wantN++
+	}
+	if k3 {
+		wantN++
+	}
+	vAssert("reference-count", len(got) == wantN)
+	if len(got) != wantN {
+		return
+	}
+	idx := 0
+	check := func(rs [][2]int, author string) {
+		g := got[idx]
+		vAssert("reference-renumbered", g.Number == idx+1)
+		vAssert("reference-identity", g.Authors == author)
+		gr := vRefRanges(word, g.Info)
+		vAssert("reference-still-a-base-range", gr != nil)
+		for x := 0; x < wlen; x++ {
+			src := (s + x) % L
+			c := false
+			for _, r := range gr {
+				c = vOr(c, vAnd(r.Start <= x, x < r.End))
+			}
+			vAssert("reference-covers-the-images-of-its-bases", c == covers(rs, src))
+		}
+		for _, r := range gr {
+			vAssert("reference-range-inside-the-slice", vAnd(0 <= r.Start, r.End <= wlen))
+		}
+		idx++
+	}
+	if k1 {
+		check(r1, "a")
+	}
+	vAssert("free-text-reference-kept", vAnd(got[idx].Info == "sites", got[idx].Number == idx+1))
+	idx++
+	if k3 {
+		check(r3, "c")
 	}
 	vObserve("nrefs", len(got))
 }
